@@ -173,6 +173,8 @@ def run_c05(ck):
         else:
             s = genexpr.gen_str(rng)
             t = s if rng.random() < 0.4 else {"k": "call", "f": rng.choice(genexpr.ENCODINGS + ["strlen", "sizeof"]), "args": [s]}
+            if t is not s and t["f"] in genexpr.ENCODINGS and rng.random() < 0.5:
+                t = {"k": "call", "f": rng.choice(["sizeof", "strlen"]), "args": [t]}        # sizeof(utf16be("ab"))
             cases.append(("expr", t, "data" if rng.random() < 0.7 else "const", genexpr.render(t)))
     # strings used as numbers (big-endian bytes of the encoding), incl. first bytes >= 0x80
     for i in range(300 if quick else 3000):
